@@ -295,7 +295,7 @@ def run_profile(sh, prop, profile, n_models, monitors, nontrivial=None, prefix='
             ov.setdefault('n_sources', (2, 4))
             ov['max_events'] = 60000
             sh.count(prefix + 'large_models')
-        elif i % 25 == 7:
+        elif i % 25 == 7 and i < 1500:
             # long histories on small models: hundreds to thousands of parts, cycles and records
             ov = dict(overrides or {})
             ov.setdefault('n_stages', (1, 3))
